@@ -10,7 +10,8 @@
 (*        t, c = the hook's type numbers, tp, cp = the positions of those types in the dump (0: not dumped)   *)
 (*   {"e":"Final", "canon":[[t, c]...]}   hook numbers of every dumped type and of its canonical type          *)
 (* and, from the `dbgcanon` build (the library's own checks named by C20):                                    *)
-(*   {"e":"DebugRun", "mode":"tc"|"abidiff", "exit":.., "sig":.., "errors":n, "ret":..}                      *)
+(*   {"e":"DebugRun", "mode":"tc"|"abidiff", "exit":.., "sig":.., "ret":.., and the number of error-stream    *)
+(*    lines of each kind the library prints: tcDiffers, errFnType, errTypeId, errOther}                        *)
 (*                                                                                                          *)
 (* Dump (stateless): structural equality is recomputed here as the greatest bisimulation over what the        *)
 (* harness recorded of every type (sig = all local attributes equals() compares, kids = the sub-types it       *)
@@ -43,6 +44,11 @@ vars == <<l, verdict, dump, bis, taint, hc, prop, nonconf, cur, names>>
 (* C20-cycle-detection: is_comparison_cycle_detected() answers "l OR r is being compared", so a sub-type pair *)
 (* (l, r') with r' a different type than the r that l is being compared with is assumed equal.                *)
 KF_C20_cycle(ev) == FALSE
+(* C20-debug-abidiff-false-alarms: `abidw --debug-abidiff` prints "error: wrong canonical type for 'function type ...'" for the   *)
+(* type of every function-decl read back from ABIXML (such types carry no type-id, and check_canonical_type_from_abixml_during_   *)
+(* self_comp answers false for a type without type-id), and "error: no type with type-id ... could be read back from the typeid    *)
+(* file" for emitted types that were not canonical types; the run itself ends normally with status 0.                            *)
+KF_C20_debug_abidiff(ev) == FALSE
 (* ---------------------------------------------------------------------------------------------------------- *)
 
 Get(f, x) == IF x \in DOMAIN f THEN f[x] ELSE 0
@@ -85,8 +91,13 @@ VDump(ev, B, tn) ==
      ELSE "ok"
 
 (* the library's own checks (abidw --debug-tc / --debug-abidiff of the dbgcanon build) never fire *)
-VDebugRun(ev) == IF ev.ret # "ok" THEN "bad:debug-check-aborted:" \o ev.mode
-                 ELSE IF ev.errors # 0 THEN "bad:debug-check-reported-an-error:" \o ev.mode
+VDebugRun(ev) == IF ev.tcDiffers # 0 THEN "bad:structural-and-canonical-equality-differ:" \o ev.mode
+                 ELSE IF ev.ret # "ok" THEN "bad:debug-check-aborted:" \o ev.mode
+                 ELSE IF ev.errOther # 0 THEN "bad:debug-check-reported-an-error:" \o ev.mode
+                 ELSE IF ev.errFnType + ev.errTypeId # 0
+                      THEN (IF ev.mode = "abidiff" /\ ev.exit = 0 /\ KF_C20_debug_abidiff(ev) THEN "kf:C20-debug-abidiff-false-alarms"
+                            ELSE IF ev.errTypeId # 0 THEN "bad:debug-check-type-id-not-read-back:" \o ev.mode
+                            ELSE "bad:debug-check-wrong-canonical-type-for-function-type:" \o ev.mode)
                  ELSE IF ev.exit # 0 THEN "bad:debug-check-failed:" \o ev.mode ELSE "ok"
 
 (* ---- the hook events as steps of Canon's algorithm -------------------------------------------------------- *)
